@@ -159,6 +159,10 @@ func solveOne(j solveJob, outDir string, budgetMs, seed int) {
 	best := r{res: "unknown"}
 	for i := 0; i < len(solvers); i++ {
 		x := <-rc
+		if x.res == "sat" && x.name == "z3" && strings.Contains(text, "(forall ") {
+			// z3 4.8.12 occasionally answers sat on quantified goals the newer solvers cannot decide: not trusted
+			x.res = "unknown"
+		}
 		if x.res == "unsat" || x.res == "sat" {
 			// prefer unsat from any solver; a sat answer from one solver is definitive as well
 			ob.Result, ob.Solver, ob.Model = x.res, x.name, modelOf(x.res, x.out)
